@@ -78,9 +78,10 @@ CHECKS = {
     'C13': dict(
         text='PARTIAL. MPS.compress runs symbolically (QR + SVD contracts, symbolic tolerance): block sparsity, canonical form, non-growing bonds, C12 truncation rule at the '
              'first truncated bond together with the canonical form of the not-yet-swept part of the chain at that moment (so the truncated values are Schmidt values), and exactness '
-             'nrm*scale*dense(new)=dense(old) when nothing is discarded / tol=0 are proved by SMT for L<=2 (3 structural). '
-             'The error BOUNDS for tol>0 (scale >= sqrt(1-L tol), error <= nrm sqrt(L tol)) and from_vector(tol>0) are NOT decided.',
-        note='Trusts QR/SVD contracts, z3, engine. Outside: error bounds for tol>0, from_vector(tol>0), scale=1 at tol=0, zero states, L>3.',
+             'nrm*scale*dense(new)=dense(old) when nothing is discarded / tol=0 are proved by SMT for L<=2 (3 structural). For L=2 (D<=2, both modes, symbolic tol) '
+             'scale^2 + discarded relative weight = 1 and 1-L tol <= scale^2 <= 1 are proved by a lemma chain. '
+             'The scale bound for L>=3, the error identity / bound nrm sqrt(L tol) and from_vector(tol>0) are NOT decided.',
+        note='Trusts QR/SVD contracts (incl. the implied Frobenius identity as an opt-in lemma), z3, engine. Outside: scale bound L>=3, error identity, from_vector(tol>0), scale=1 at tol=0, zero states, L>3.',
         design='6 C13'),
     'C14': dict(
         text='PARTIAL. lanczos_iteration / arnoldi_iteration run in exact arithmetic on symbolic maps and start vectors; every breakdown position is a path. '
